@@ -47,7 +47,8 @@ class LiveRender:
         """
         if self._shape is not None:
             _, height = self._shape
-            return Control("\r" + "\x1b[1A\x1b[2K" * height)
+            # an empty render still had a new line written after it
+            return Control("\r" + "\x1b[1A\x1b[2K" * max(1, height))
         return Control("")
 
     def __rich_console__(
